@@ -36,7 +36,8 @@ def apply(cfg, order, history=False, reuse=False, late=False, via_info=False, cu
             info.add_stream(name, streams[name])
         for k, v in cfg["table"].items():
             if k in streams:
-                info.add_seed_values(k, list(v))
+                info.add_seed_values(k, [777, 778, 779])      # configured once ...
+                info.add_seed_values(k, list(v))              # ... and configured again: the later list replaces the earlier one
         up = StreamSeedUpdater(info.get_seeds())
     elif ddict:
         # the seed table is a dict subclass that invents missing keys on look-up (collections.defaultdict(list))
